@@ -477,7 +477,7 @@ def shard_aged(arg):
     from ..lib import IBAN, SchwiftyException
     rng = random.Random(f"{seed}:C14:aged:{i}")
     rec = Rec()
-    start_budget(tier, quick_s=25, thorough_s=300)
+    start_budget(tier, quick_s=10, thorough_s=300)
     g, o = gen(), oracle()
     ccs = o.countries()
     n_burst = 2600
@@ -546,7 +546,7 @@ def shard_cold(arg):
     rec = Rec()
     state()
     zyg = Zygote()
-    t_end = time.time() + (25 if tier == "quick" else 300)
+    t_end = time.time() + (20 if tier == "quick" else 300)
     try:
         # one list of pairs per seed, dealt out to the 16 shards (so that every kind of pair gets its share of the budget)
         common = random.Random(f"{seed}:C14:cold:pairs")
@@ -556,6 +556,7 @@ def shard_cold(arg):
             extra = level_pairs(common)
             pairs += [extra[0], extra[3], extra[-1]]
         pairs = pairs[i::16]
+        pairs.sort(key=lambda pr: pr[0]["op"] != "bic")      # pairs that run through third-party frames first (costlier trials)
         for descs in pairs:
             if time.time() > t_end:
                 break
@@ -683,6 +684,6 @@ def run(ctx):
     ctx.pmap(shard_cold, [(i, ctx.seed, ctx.tier) for i in range(16)] + [("aged", i, ctx.seed, ctx.tier) for i in range(16)])
     ctx.pmap(shard_national, [(cc, ctx.seed, ctx.tier) for cc in NATIONAL])
     ctx.pmap(shard_mixed, [(i, ctx.seed, ctx.tier) for i in range(16 if ctx.quick else 32)])
-    ctx.hyp_explore(strategy(), hyp_body, ctx.pick(300, 6000), name="C14-hyp", shrink_s=ctx.pick(25, 200))
+    ctx.hyp_parallel(strategy, hyp_body, ctx.pick(640, 12000), name="C14-hyp")
     ctx.require_classes("burst-while-paused-schedules", "loc-warm-schedules", "loc-cold-schedules", "loc-cold-pair", "mixed", "hyp", "random-2-threads", "random-3-threads", "random-national",
                         *[f"enum-{m}" for m in st["impl"]], *[f"enum-national-{cc}" for cc in NATIONAL])
